@@ -97,7 +97,11 @@ def grid3d(b, rng, nx, ny, nz, kind, origin=(0, 0, 0)):
                 def P(di, dj, dk):
                     return b.node((ox + 2 * (i + di), oy + 2 * (j + dj), oz + 2 * (k + dk)))
                 c = [P(*q) for q in sorted(_CORNER, key=_CORNER.get)]
-                kk = kind if kind != 'mixed3d' else rng.choice(['hex', 'tet', 'prism', 'pyr'])
+                kk = kind
+                if kind == 'mixed3d':
+                    kk = rng.choice(['hex', 'tet', 'prism', 'pyr'])
+                elif kind == 'mixed3dv':       # only types with a femio volume kernel
+                    kk = rng.choice(['hex', 'tet', 'prism'])
                 if kk == 'hex':
                     b.cell('hex', c)
                 elif kk == 'tet':
@@ -195,7 +199,7 @@ def gen_mesh(rng, kind=None, max_nodes=26, id_mode=None, components=None, n_unre
                 grid2d(b, rng, rng.randint(lo, 3), rng.randint(1, 2), kind, org)
             else:
                 base = {'tet': 'tet', 'hex': 'hex', 'mixed3d': 'mixed3d', 'tet2': 'tet',
-                        'hex2': 'hex', 'mixed3d2': 'mixed3d'}[kind]
+                        'hex2': 'hex', 'mixed3d2': 'mixed3d', 'mixed3dv': 'mixed3dv'}[kind]
                 grid3d(b, rng, rng.randint(lo, 2), rng.randint(1, 2), 1, base, org)
         if kind in ('tet2', 'hex2', 'mixed3d2'):
             to_second_order(b, rng)
